@@ -4,7 +4,8 @@ usage: bin/seeded_matrix.py [ID ...]   (default: all)   env EXTRA="C16:C06_2,C17
 import json, os, subprocess, sys, re, glob
 ROOT = '/verif'
 EXTRA = {'C08_2': ['C12'], 'C04_2': [], 'C02_4': ['C16', 'C11'], 'C11_4': ['C16', 'C02'], 'C02_5': ['C15'], 'C15_5': ['C02'], 'C08_5': ['C07'], 'C01_4': ['C03'], 'C14_4': ['C11'], 'C16_5': ['C14'], 'C07_5': ['C08', 'C12'], 'C06_2': ['C16'], 'C05_2': ['C17'], 'C02_1': ['C15'], 'C02_2': ['C15'], 'C11_1': ['C14'],
-         'C06_6': ['C14'], 'C07_6': ['C06'], 'C11_6': ['C14'], 'C02_6': ['C14'], 'C19_6': ['C04'], 'C04_6': ['C19'], 'C18_6': ['C12'], 'C10_6': ['C09'], 'C12_7': [], 'C05_6': ['C17'], 'C13_6': ['C11'], 'C13_7': ['C05'], 'C03_7': [], 'C15_7': []}
+         'C06_6': ['C14'], 'C07_6': ['C06'], 'C11_6': ['C14'], 'C02_6': ['C14'], 'C19_6': ['C04'], 'C04_6': ['C19'], 'C18_6': ['C12'], 'C10_6': ['C09'], 'C12_7': [], 'C05_6': ['C17'], 'C13_6': ['C11'], 'C13_7': ['C05'], 'C03_7': [], 'C15_7': [],
+         'C19_8': ['C03'], 'C08_8': ['C12'], 'C16_8': ['C06'], 'C11_8': ['C05'], 'C04_8': ['C19'], 'C06_8': ['C05']}
 
 # changes that a later fix: commit made harmless (the author's demonstration no longer fails on the repaired tree with the patch applied)
 NEUTRALISED = {'C05_4': 'repair ad02a69 (KeyFlags keeps the width it was parsed with) made this change harmless: with the patch applied the demonstration passes on the repaired tree'}
